@@ -94,3 +94,29 @@ func VH_c09_predicate_combinators() {
 	}
 	zz.Assert(eq.GivenFieldPtr(gp, q)(r) == ((p == nil && q == nil) || (p != nil && q != nil && v == w)), "GivenFieldPtr: both nil or equal targets")
 }
+
+
+// slices that are views of ONE backing array (same start, different lengths; overlapping windows): equality is by
+// content and length, never by identity of the storage
+func VH_c09_seq_slice_aliased() {
+	base := zz.SliceInt("base", 3, 0, 0)
+	n := len(base)
+	i, j := zz.Choice("i", n+1), zz.Choice("j", n+1)
+	oa, ob := 0, 0
+	if zz.Bool("offset") && n > 0 {
+		ob = 1
+		if j < ob {
+			j = ob
+		}
+	}
+	a, b := base[oa:i], base[ob:j]
+	want := sliceEq(a, b)
+	g := eq.Given[int]()
+	zz.Assert(eq.Seq(g).Eqv(fp.Seq[int](a), fp.Seq[int](b)) == want, "eq.Seq on views of one array")
+	zz.Assert(eq.Slice(g).Eqv(a, b) == want, "eq.Slice on views of one array")
+	hn := hash.Number[int]()
+	zz.Assert(hash.Seq(hn).Eqv(fp.Seq[int](a), fp.Seq[int](b)) == want, "hash.Seq.Eqv on views of one array")
+	zz.Assert(hash.Slice(hn).Eqv(a, b) == want, "hash.Slice.Eqv on views of one array")
+	hashLaws(hash.Seq(hn), fp.Seq[int](a), fp.Seq[int](b), "hash.Seq on views of one array")
+	hashLaws(hash.Slice(hn), a, b, "hash.Slice on views of one array")
+}
